@@ -25,3 +25,12 @@ package internal
 //@   ensures n >= 0 ==> result == n
 //@   ensures n < 0 ==> result == -n
 //@   modifies nothing
+
+// valmem(v): the size KeyData.GetMem accounts for value v (beyond the fixed 24 bytes of the deadline).
+// GetMem walks hashes, lists and sets; its result is treated as a function of the value (assumed contract).
+//@ ufun valmem(v any) int64
+
+//@ func (*KeyData).GetMem trusted props C19
+//@   ensures result1 == nil ==> result0 == 24 + valmem(k.Value)
+//@   ensures result0 >= 0
+//@   modifies nothing
